@@ -118,6 +118,27 @@ func genC13(p *Plan, r *RNG) {
 	if r.Chance(1, 5) {
 		cls := r.Pick([]string{"log:*", "lock", "rlock", "unlock", "sock:client:WriteTo"})
 		p.Stalls = append(p.Stalls, Stall{M: Match{Class: cls, Args: "*", Nth: r.Range(1, 40)}, ParkNS: r.PickI64([]int64{0, 1, ms, 250 * ms, 3 * sec})})
+	} else if r.Chance(1, 3) {
+		// directed: one particular application call is parked at one of its first seams and the
+		// calls (and server messages) after it are squeezed into the park
+		var idx []int
+		for i, o := range p.Ops {
+			if i > 0 && i+1 < len(p.Ops) && (o.Kind == "writeto" || o.Kind == "readfrom" || o.Kind == "close_relay" || o.Kind == "set_deadline") {
+				idx = append(idx, i)
+			}
+		}
+		if len(idx) > 0 {
+			i := idx[r.Intn(len(idx))]
+			cls := r.Pick([]string{"lock", "rlock", "unlock", "runlock", "log:*", "sock:client:WriteTo"})
+			park := r.PickI64([]int64{ms, 50 * ms, 700 * ms, 3 * sec})
+			p.Stalls = append(p.Stalls, Stall{M: Match{Class: cls, Args: "*", Nth: r.Range(1, 6)}, ParkNS: park, AfterOp: i + 1})
+			for j, k := i+1, r.Range(1, 3); j < len(p.Ops) && k > 0; j, k = j+1, k-1 {
+				if p.Ops[j].At.GapNS > park/4 {
+					p.Ops[j].At = gap(park / 4)
+				}
+			}
+			p.Flavor += "+directed"
+		}
 	}
 	p.QuietNS = 20 * sec
 }
